@@ -627,7 +627,22 @@ func copyCursorFill(ms *ssa.MakeSlice) ([]catom, bool) {
 			}
 		}
 		if found < 0 {
-			return nil, false
+			// a gap of a constant number of octets before the next piece (the cursor stepped over them: `n += 7`): nothing
+			// writes there, so they are the zeros make() gave
+			gap := int64(-1)
+			for i, sg := range segs {
+				if used[i] {
+					continue
+				}
+				if d := sg.off.Add(cur, -1); d.IsConst() && d.C > 0 && (gap < 0 || d.C < gap) {
+					gap, found = d.C, i
+				}
+			}
+			if found < 0 {
+				return nil, false
+			}
+			out = append(out, catom{fmt.Sprintf("0x%d", gap), nil})
+			cur = cur.Add(prover.Const(gap), 1)
 		}
 		used[found] = true
 		s, ok := concatSeq(segs[found].src, 1)
